@@ -2,6 +2,7 @@ package ksim
 
 import (
 	"container/heap"
+	"sigs.k8s.io/controller-runtime/pkg/client"
 	"strings"
 	"k8s.io/apimachinery/pkg/api/meta"
 	"fmt"
@@ -146,6 +147,7 @@ type Sim struct {
 	Trace      []string // abstract trace for evidence / determinism hash
 	EvLog      *hashLog // full event log hash (determinism self-test)
 	Oracles    []Oracle
+	admissionHook func(actor string, old, submitted, admitted client.Object)
 	QuietHooks []func() bool // called at quiescence; return true if they produced work
 	ended      bool
 	EndReason  string
